@@ -57,6 +57,7 @@ FACT_THEOREMS = {
              "SRC_rotate_32_by", "SRC_update_lanes", "SRC_update_remainder", "SRC_finalize"]),
     "C15": ("theories/Properties/FactsC15.v", ["C15_no_global_state"]),
     "C07": ("theories/Properties/FactsC07.v", ["C07_default_impls"]),
+    "C12": ("theories/Properties/FactsC12.v", ["C12_adapter_macros"]),
     "C09": ("theories/Properties/FactsC09.v", ["C09_memory_signature"]),
 }
 
